@@ -20,6 +20,12 @@ import tempfile
 from . import coqterm as ct
 from . import gen_tree as gt
 
+
+def _uj(x):
+    """JSON case value -> fresh Python value: never hand the case's own (list)
+    objects to the code under test (leaf appends would rewrite the recorded input)."""
+    return copy.deepcopy(gt.unjson(x))
+
 SUFFIXES = ["yaml", "yml", "json", "py"]
 SAFE_KEYS = ["a", "b", "c", "x", "y", "foo", "bar", "ab", "k", "n"]
 ENV_VALUES = ["", "0", "1", "5", "-3", "007", "abc", "true", "x y"]
@@ -72,7 +78,7 @@ def write_fs(root, fs):
                 if sfx == "json":
                     f.write("null")          # json.load -> None, like an empty YAML document
             continue
-        data = gt.unjson(entry["data"])
+        data = _uj(entry["data"])
         with open(path, "w") as f:
             if sfx in ("yaml", "yml"):
                 yaml.safe_dump(data, f, sort_keys=False, default_flow_style=False)
@@ -86,7 +92,7 @@ def fs_entry_tree(entry):
     """the data a loader returns for an entry (None for an empty YAML file)"""
     if "empty" in entry:
         return None
-    return gt.unjson(entry["data"])
+    return _uj(entry["data"])
 
 
 # --------------------------------------------------------------------------
@@ -142,7 +148,7 @@ class Session:
 
     # -- data handed to the config: fresh objects, remembered for snapshots
     def supply(self, label, tree):
-        obj = copy.deepcopy(gt.unjson(tree))
+        obj = copy.deepcopy(_uj(tree))
         if self.keep_sources:
             self.sources.append((label, obj, copy.deepcopy(obj)))
         return obj
@@ -213,7 +219,7 @@ class Session:
                 v = getattr(obj, op[3]) if fl == "attr" else obj[op[3]]
                 return cfg, {"val": _rec(v)}
             if name == "set":
-                v = self.supply("written", op[4]) if isinstance(op[4], dict) else gt.unjson(op[4])
+                v = self.supply("written", op[4]) if isinstance(op[4], dict) else _uj(op[4])
                 if fl == "attr":
                     setattr(obj, op[3], v)
                 else:
@@ -229,7 +235,7 @@ class Session:
                 if op[4] is None:
                     v = obj.pop(op[3])
                 else:
-                    v = obj.pop(op[3], gt.unjson(op[4]["d"]))
+                    v = obj.pop(op[3], _uj(op[4]["d"]))
                 return cfg, {"val": _rec(v)}
             if name == "popitem":
                 k, v = obj.popitem()
@@ -241,10 +247,10 @@ class Session:
                 if op[4] is None:
                     v = obj.setdefault(op[3])
                 else:
-                    v = obj.setdefault(op[3], gt.unjson(op[4]["d"]))
+                    v = obj.setdefault(op[3], _uj(op[4]["d"]))
                 return cfg, {"val": _rec(v)}
             if name == "update":
-                kvs = [(k, gt.unjson(v)) for k, v in op[3]]
+                kvs = [(k, _uj(v)) for k, v in op[3]]
                 style = op[4] if len(op) > 4 else "dict"
                 if style == "kwargs" and kvs:
                     obj.update(**dict(kvs))
@@ -276,11 +282,11 @@ class Session:
                     other["__other__"] = 1
                 return cfg, {"bool": bool(obj == other)}
             if name == "getm":
-                v = obj.get(op[3]) if op[4] is None else obj.get(op[3], gt.unjson(op[4]["d"]))
+                v = obj.get(op[3]) if op[4] is None else obj.get(op[3], _uj(op[4]["d"]))
                 return cfg, {"val": _rec(v)}
             if name == "update_both":
-                obj.update(dict((k, gt.unjson(v)) for k, v in op[3]),
-                           **dict((k, gt.unjson(v)) for k, v in op[4]))
+                obj.update(dict((k, _uj(v)) for k, v in op[3]),
+                           **dict((k, _uj(v)) for k, v in op[4]))
                 return cfg, {"none": 1}
             if name == "update_proxy":
                 src = self.nav(cfg, fl, op[3], rng)
@@ -289,7 +295,7 @@ class Session:
             if name == "rawset":
                 how = op[6] if len(op) > 6 else "get"
                 r = obj.setdefault(op[3]) if (how == "setdefault" and op[3] in obj) else obj.get(op[3])
-                r[op[4]] = gt.unjson(op[5])
+                r[op[4]] = _uj(op[5])
                 return cfg, {"none": 1}
             if name == "leafappend":
                 lst = getattr(obj, op[3]) if fl == "attr" else obj[op[3]]
@@ -454,7 +460,7 @@ def env_for(rng, sch, p_set=0.4, prefix="INVOKE_", p_bad=0.03):
 # Coq printers
 # --------------------------------------------------------------------------
 def c_tree(t):
-    return ct.tree(gt.unjson(t))
+    return ct.tree(_uj(t))
 
 
 def c_fentry(e):
